@@ -469,6 +469,9 @@ func c15Explore(c *fw.Ctx, prog string, bound int) {
 	if st.Deadlines > 0 {
 		c.HarnessError("C15 %s: %d executions hit the watchdog (first at schedule %v)", prog, st.Deadlines, st.DeadlineAt)
 	}
+	if st.WarmStart {
+		c.Count("warm_start_scenarios", 1)
+	}
 	if st.Nondeterministic {
 		c.HarnessError("C15: replaying the default schedule gave a different execution (uncaptured nondeterminism)")
 	}
